@@ -6,9 +6,10 @@
 
     Proved: for the archive writer and for write_directories the LAST operation always propagates, so
     every fault index yields an error — in particular the drop-time writes of the directory and
-    metadata encoders are always followed by a propagating position query.  [C15_lost_in_drop] exhibits
-    the one place where this fails in the model: Directory::to_writer on its own (sync, with a codec)
-    ends with a drop-time write — the known finding D6.
+    metadata encoders are always followed by a propagating position query.  [C15_directory_writer]: the
+    directory writer on its own issues propagating operations only (since the repair of D6 the synchronous
+    one encodes into memory and hands the finished bytes over with write_all + flush);
+    [C15_lost_in_drop_before_repair] exhibits what the streaming writer did before.
     Readers: [IOReader.open_io] is the reader over an abstract I/O interface in which every byte is obtained by a
     [fetch off len] request; [C15_reader_is_the_model] — on an ideal stream it computes exactly what
     [from_reader] builds its archive from; [C15_reader_fail_stop] — if ANY window the open requests (the 127
@@ -33,11 +34,29 @@ Proof.
   - intros k Hk. cbn [rev]. apply reports_error_last; [reflexivity|]. rewrite app_length, rev_length. cbn [length] in *. lia.
 Qed.
 
-(** the sync directory writer with a codec, on its own: when the encoder keeps bytes back until it is
-    dropped, a fault that starts inside those writes goes unreported *)
-Theorem C15_lost_in_drop : exists cx es st st' n k,
-  write_dir cx false CGzip es st = Ok (st', n) /\ (k < length (ws_log st'))%nat /\
-  reports_error (rev (ws_log st')) k = false.
+(** the directory writer on its own (sync and async, every codec): every operation it issues returns its
+    error to the caller, so a fault starting at ANY of its operations is reported.  (Before the repair of
+    D6 the synchronous writer streamed through the codec writer and the encoder's last bytes were written
+    from Drop: see [C15_lost_in_drop_before_repair].) *)
+Theorem C15_directory_writer : forall cx asy c es st st' n, write_dir cx asy c es st = Ok (st', n) ->
+  exists new, ws_log st' = new ++ ws_log st /\ (0 < length new)%nat /\ forall k, (k < length new)%nat -> reports_error (rev new) k = true.
+Proof.
+  intros cx asy c es st st' n H. unfold write_dir in H.
+  destruct (compress cx asy c []) as [x| |]; cbn [bind] in H; try discriminate.
+  destruct (encode_dir_plain es) as [plain| |]; cbn [bind] in H; try discriminate.
+  destruct (compress cx asy c plain) as [z| |]; cbn [bind] in H; try discriminate.
+  injection H as <- _. unfold ws_write_dir, ws_write, ws_write_gen.
+  destruct z as [|b z]; cbn [ws_log_ev ws_log].
+  - exists [if asy then EvClose else EvFlush]. repeat split; [cbn; lia|].
+    intros k Hk. cbn [length] in Hk. assert (k = 0)%nat by lia. subst k. destruct asy; reflexivity.
+  - exists [if asy then EvClose else EvFlush; EvWrite false (ws_pos st) (b :: z)]. repeat split; [cbn; lia|].
+    intros k Hk. cbn [rev app]. apply (reports_error_last [EvWrite false (ws_pos st) (b :: z)]); [now destruct asy|exact Hk].
+Qed.
+
+(** D6, the behaviour before the repair: the synchronous directory writer streaming through a codec writer
+    that keeps bytes back until it is dropped; a fault that starts inside those writes went unreported *)
+Theorem C15_lost_in_drop_before_repair : exists cx es st st' n k,
+  write_dir_streaming cx CGzip es st = Ok (st', n) /\ (k < length (ws_log st'))%nat /\ reports_error (rev (ws_log st')) k = false.
 Proof.
   exists (mkCtx (fun _ _ b => b ++ [1; 2]) (decomp ctx_id) (json_parse ctx_id) (hash ctx_id) (fun _ _ => 2)),
          [], (ws_new [] 0).
